@@ -137,10 +137,14 @@ class Public_key(object):
         # for curve parameters with base point with cofactor 1, all points
         # that are on the curve are scalar multiples of the base point, so
         # verifying that is not necessary. See Section 3.2.2.1 of SEC 1 v2
+        # the point arithmetic can't tell a point with y == 0 (order 2) from
+        # the point at infinity, so n * point would also "be" infinity for
+        # points of order 2 and 2 * n; check that (n - 1) * point == -point
+        # instead (n is odd, so neither side passes through such a point)
         if (
             verify
             and self.curve.cofactor() != 1
-            and not n * point == ellipticcurve.INFINITY
+            and not (point.y() and (n - 1) * point == -point)
         ):
             raise InvalidPointError("Generator point order is bad.")
 
@@ -300,12 +304,11 @@ def point_is_valid(generator, x, y):
         return False
     if not curve.contains_point(x, y):
         return False
-    if (
-        curve.cofactor() != 1
-        and not n * ellipticcurve.PointJacobi(curve, x, y, 1)
-        == ellipticcurve.INFINITY
-    ):
-        return False
+    if curve.cofactor() != 1:
+        # see Public_key.__init__ for why n * point == INFINITY is not used
+        point = ellipticcurve.PointJacobi(curve, x, y, 1)
+        if not y or not (n - 1) * point == -point:
+            return False
     return True
 
 
